@@ -5,6 +5,7 @@
 -/
 import PicoSVG.Model.Pipeline
 import PicoSVG.Proofs.IdsP
+import PicoSVG.Proofs.OrphanP
 
 set_option linter.unusedSectionVars false
 namespace PicoSVG.C08
@@ -122,5 +123,19 @@ theorem use_copy_has_no_ids (n : Node) (s : SvgObj) (c : Node) (s' : SvgObj)
     there are two pieces) -/
 theorem stroke_split_ids (mp : Bool) (sh2 st4 : ShapeRec) :
     ((strokeOut mp sh2 st4).filter (fun p => p.getS "id" != "")).length ≤ 1 := IdsP.strokeOut_ids mp sh2 st4
+
+/-- C08 (no orphan): after the loop of `_remove_orphaned_gradients` (`pruneGrads`: every gradient element whose id is not
+    among the ids in use is removed, one `Node.removeUid` after the other) every gradient element left anywhere below the root
+    has an id, and that id is in use — for trees of any shape, nested or repeated gradients included -/
+theorem no_orphan_after_purge (used : List String) (root : Node) :
+    ∀ m ∈ (pruneGrads used root).elems, isGradElem m = true → OrphanP.sigOf m ≠ OrphanP.sigOf root →
+      ∃ i, m.getAttr "id" = some i ∧ i ∈ used := by
+  intro m hm hg hr
+  have h := OrphanP.pruneGrads_no_orphan used root m hm hg hr
+  unfold gradKept at h
+  unfold Node.getAttr
+  cases hid : Style.getKV m.attrs "id" with
+  | none => simp [hid] at h
+  | some i => exact ⟨i, rfl, by simpa [hid] using h⟩
 
 end PicoSVG.C08
